@@ -82,6 +82,17 @@ func generate(w *mon.W) {
 			c := &Case{Prog: prog, Mode: mode, Seed: seed}
 			src := Print(prog, gen.LayoutFor(seed, mode)).Src
 			w.Do("p|"+src, func(r *mon.R) { Check(c, r) })
+			if mode == 0 && i%8 == 0 {
+				// an unusual character glued to the very start or end of the source
+				// (a byte order mark, white space outside ASCII, control characters)
+				for _, ch := range []string{"\ufeff", "\u00a0", "\u2003", "\r", "\v", "\f", "\x00", "\ufffd", "\u2028", "\xef\xbb", "\xff"} {
+					for _, m := range []string{ch + src, src + ch, ch + ch + src} {
+						mm := mon.Str(m)
+						cm := &Case{Raw: &mm}
+						w.Do("r|"+m, func(r *mon.R) { Check(cm, r) })
+					}
+				}
+			}
 			if mode != 1 {
 				// corrupted variants for the error part
 				for k := 0; k < 2; k++ {
@@ -275,8 +286,12 @@ func Check(c *Case, r *mon.R) {
 			r.Inconclusive("foreign_parse_anomaly")
 			return
 		}
-		if !checkNodes(src, stmts, false, r) {
+		// whatever parses successfully is held to the exact rules, generated or not
+		if !checkNodes(src, stmts, err == nil, r) {
 			return
+		}
+		if err == nil {
+			r.Count("accepted_raw_sources_checked_exactly", 1)
 		}
 		nontrivial := false
 		if err != nil {
